@@ -25,11 +25,20 @@ class Program:
         # text around the permuted block (used when the block under test is nested)
         self.prefix = ""
         self.suffix = ""
+        # sequential `do` steps of the block: (position among the contributions, text); they are
+        # not contributions and keep their place, contributions move across them
+        self.do_steps = []
 
     def render(self, order):
         lines = ["begin"]
-        for index in order:
+        for position, index in enumerate(order):
+            for at, text in self.do_steps:
+                if at == position:
+                    lines.append("  " + text)
             lines.append("  " + self.contributions[index][1] + " that")
+        for at, text in self.do_steps:
+            if at >= len(order):
+                lines.append("  " + text)
         lines.append("  " + self.body)
         lines.append("end")
         return self.prefix + "\n".join(lines) + self.suffix + "\n"
@@ -170,8 +179,12 @@ def gen_full(rng, builtin_path):
     ty, code = shape(value_types[target])
     program.body, _ = _project(f"v{target}", ty)
     program.exit_code = code
-    # optionally inject a cycle through values / a parameter
-    twist = rng.below(8)
+    # sequential steps between which the contributions may sit (a contribution written after a
+    # `do` is still a contribution of the block)
+    for step in range(rng.below(3)):
+        program.do_steps.append((rng.range(1, len(program.contributions)), f"do t{step} <- ret {step};"))
+    # optionally inject a cycle through values / a parameter, or a duplicated name
+    twist = rng.below(10)
     if twist == 0 and len(value_nodes) >= 1:
         i = 90
         program.contributions.append((f"v{i}", f"def v{i} : Int64 = v{i + 1}", False, {f"v{i + 1}", "H2"}))
@@ -189,6 +202,22 @@ def gen_full(rng, builtin_path):
         program.contributions.append(("v95", f"let v95 = (v{a}, v96)", False, {f"v{a}", "v96"}))
         program.contributions.append(("v96", "let v96 = (v95, v95)", False, {"v95"}))
         program.expect, program.note = "reject", "value cycle hanging off an acyclic value"
+    elif twist == 4:
+        # one name bound twice in one block: rejected whatever the order
+        a = rng.pick(value_nodes)
+        program.contributions.append((f"dup{a}", f"let v{a} = {rng.range(2, 90)}", False, set()))
+        program.expect, program.note = "reject", "one name contributed twice"
+    elif twist == 5:
+        # two names bound twice through tuple binders (the diagnostic must not depend on the hash key)
+        program.contributions.append(("dupA", "let (da, db) = (1, 2)", False, set()))
+        program.contributions.append(("dupB", "let (da, db) = (3, 4)", False, set()))
+        program.expect, program.note = "reject", "two names contributed twice through tuple binders"
+    elif twist == 6:
+        # a cycle through a parameter that closes through a definition
+        program.contributions.append(("p97", "param (p97 : T98)", True, {"T98"}))
+        program.contributions.append(("T98", "def T98 : VType = T99", False, {"T99", "H1"}))
+        program.contributions.append(("T99", "let T99 = p97", False, {"p97"}))
+        program.expect, program.note = "reject", "cycle through a parameter closing through definitions"
     return program
 
 
